@@ -20,6 +20,7 @@ import logging
 from typing import Any
 
 from hv.clock import patched_time
+from hv.gen import argnames
 from hv.loop import VClock, run_virtual
 from hv.record import Recorder
 
@@ -295,7 +296,15 @@ def cases(tier: str):  # noqa: ANN201
             yield {"seq": list(seq), "limit": 1, "catching": "default", "delay": "none", "flavour": flavour, "scoped": False, "deco": "bare"}
 
 
+def argname_wrappers() -> dict[str, tuple[Any, bool, bool]]:
+    from haiway import retry
+
+    return {"retry-sync": (retry, False, False), "retry-async": (retry, True, False), "retry-async-limit": (retry(limit=2, delay=0.0), True, False)}
+
+
 def run(R: Recorder, tier: str, seed: int, shard: int, nshards: int) -> None:
+    if shard == 0:
+        argnames.check(R, "arguments", argname_wrappers())
     R.flags["exhaustive"] = True
     R.flags["exhaustive_core"] = "full product of pruned outcome sequences x limits 1-4 x catching forms x delay forms x sync/async x scoped"
     logging.disable(logging.CRITICAL)
@@ -308,6 +317,9 @@ def run(R: Recorder, tier: str, seed: int, shard: int, nshards: int) -> None:
 
 
 def replay(R: Recorder, case: dict[str, Any]) -> None:
+    if "argnames" in case:
+        argnames.check(R, "arguments", argname_wrappers(), only=case["argnames"])
+        return
     logging.disable(logging.CRITICAL)
     try:
         run_case(R, case, verbose=True)
